@@ -47,6 +47,7 @@ func (c *momentumPool) AddMomentumTransaction(insertLocker sync.Locker, transact
 	if err != nil {
 		return err
 	}
+	verifMomentumAdded(c, momentum)
 
 	c.changes.Unlock()
 	c.broadcastInsertMomentum(detailed)
@@ -113,6 +114,7 @@ func (c *momentumPool) RollbackTo(insertLocker sync.Locker, identifier types.Has
 		if err := c.chainManager.Pop(); err != nil {
 			return err
 		}
+		verifMomentumPopped(c, detailed)
 
 		c.changes.Unlock()
 		c.broadcastDeleteMomentum(detailed)
